@@ -1,6 +1,7 @@
 import Rbp.Proofs.Index
 import Rbp.Proofs.EndToEnd
 import Rbp.Generated.Consts
+import Rbp.Proofs.KeyOrder
 /-!
 # C04 — only active-chain blocks are delivered; stale and header-only records never are
 Stated for the index as the repaired code builds it (records with data and no FAILED bit, keyed by hash; tip = highest
@@ -125,5 +126,17 @@ theorem walk_bounded : ∀ (fuel : Nat) (l : List Rec) (h : Hash), (walk fuel l 
     cases find l h with
     | none => simp
     | some r => simp; exact walk_bounded fuel _ _
+
+/-- the tip at full strength: whichever fully validated record is greatest in `(height, hash)` order is the tip, wherever it sits
+    in the table — including when a competing fully validated record has the *same* height (then the greater hash decides, as
+    the `max_by_key((height, block_hash))` of the source does; `index_is_active_chain` assumes the competitors strictly lower) -/
+theorem tip_is_greatest_validated (t : Rec) (l : List Rec) (hm : t ∈ l) (hv : validScripts t = true)
+    (hall : ∀ r ∈ l, validScripts r = true → r = t ∨ tipLt r t = true) : pickTip l = some t :=
+  pickTip_greatest t l hm hv hall
+
+/-- non-vacuity: two fully validated records at height 7; the one with the greater hash is picked in either table order -/
+example : pickTip [⟨[2], [0], 7, 29, 0, 8⟩, ⟨[1], [0], 7, 29, 0, 90⟩, ⟨[9], [0], 8, 24, 0, 200⟩] = some ⟨[2], [0], 7, 29, 0, 8⟩ ∧
+    pickTip [⟨[9], [0], 8, 24, 0, 200⟩, ⟨[1], [0], 7, 29, 0, 90⟩, ⟨[2], [0], 7, 29, 0, 8⟩] = some ⟨[2], [0], 7, 29, 0, 8⟩ := by
+  decide
 
 end Rbp.Props.C04
